@@ -298,3 +298,11 @@ def d15_6(ctx):
                     used[ctx.folder.eval(k, drv.module)] = src(v)
     good = tgt is not None and len(tgt) == 3 and used.get("ip address") == tgt[0] and used.get("cip_path") == tgt[2] and used.get("port", "").replace(" ", "") == f"{tgt[1]}or44818"
     ctx.check(good, ckey(drv.key + ".__init__", "cfg"), init, "host, port (default 44818) and route are stored from the parser's result", "the parsed host/port/route are not what the driver stores", targets=tgt)
+
+
+# "yields the stated route": the route bytes are what PortSegment._encode emits for the parsed (port, link) pairs - the
+# port-segment obligations of C09 (layout, pad parity) are obligations of this property too
+from .C09 import d9_3 as _d9_3, d9_6 as _d9_6  # noqa: E402
+
+rule(P, "D15.8", "T-LAYOUT", floor=3)(_d9_6)
+rule(P, "D15.9", "T-PARITY", floor=5)(_d9_3)
